@@ -121,7 +121,8 @@ func (s *serverSocket) Connected() bool {
 	return s.connected
 }
 
-func (s *serverSocket) onPacket(header *parser.PacketHeader, eventName string, decode parser.Decode) error {
+// release is called right before user code (middlewares, handlers) is entered. See serverConn.onParserFinish.
+func (s *serverSocket) onPacket(header *parser.PacketHeader, eventName string, decode parser.Decode, release func()) error {
 	switch header.Type {
 	case parser.PacketTypeEvent, parser.PacketTypeBinaryEvent:
 		var (
@@ -143,12 +144,13 @@ func (s *serverSocket) onPacket(header *parser.PacketHeader, eventName string, d
 		}
 
 		for _, handler := range s.eventHandlers.getAll(eventName) {
-			s.onEvent(handler, header, eventName, decode, sendAck)
+			s.onEvent(handler, header, eventName, decode, sendAck, release)
 		}
 	case parser.PacketTypeAck, parser.PacketTypeBinaryAck:
-		s.onAck(header, decode)
+		s.onAck(header, decode, release)
 
 	case parser.PacketTypeDisconnect:
+		release()
 		s.onDisconnect()
 	default:
 		return wrapInternalError(fmt.Errorf("invalid packet type: %d", header.Type))
@@ -167,6 +169,7 @@ func (s *serverSocket) onEvent(
 	eventName string,
 	decode parser.Decode,
 	sendAck ackSendFunc,
+	release func(),
 ) (hasAckFunc bool) {
 	values, err := decode(handler.inputArgs...)
 	if err != nil {
@@ -191,6 +194,7 @@ func (s *serverSocket) onEvent(
 	if ack, _ := handler.ack(); ack {
 		mwValues = values[:len(values)-1]
 	}
+	release()
 	err = s.callMiddlewares(eventName, mwValues)
 	if err != nil {
 		s.onError(err)
@@ -227,7 +231,7 @@ func (s *serverSocket) onEvent(
 	return
 }
 
-func (s *serverSocket) onAck(header *parser.PacketHeader, decode parser.Decode) {
+func (s *serverSocket) onAck(header *parser.PacketHeader, decode parser.Decode, release func()) {
 	if header.ID == nil {
 		s.onError(wrapInternalError(fmt.Errorf("header.ID is nil")))
 		return
@@ -268,6 +272,7 @@ func (s *serverSocket) onAck(header *parser.PacketHeader, decode parser.Decode) 
 		return
 	}
 
+	release()
 	err = ack.call(values...)
 	if err != nil {
 		s.onError(wrapInternalError(err))
